@@ -108,6 +108,11 @@ def make_instance(det):
         pts = _np.array([[x, y], [nan, nan], [nan, nan]], dtype=float)
     elif pose == "allnan":   # no visible keypoint at all: every association score is NaN
         pts = _np.array([[nan, nan]] * 3, dtype=float)
+    elif pose == "allhid":   # every keypoint flagged visible=False, coordinates stored: `.numpy()` is all NaN
+        pts = _np.array([[x, y], [x + sz, y], [x, y + sz]], dtype=float)
+        inst = _sio.PredictedInstance.from_numpy(pts, _skel, point_scores=_np.ones(3), score=float(score))
+        inst.points["visible"][:] = False
+        return inst
     elif pose.startswith("skew"):   # positive-area pose without axis-aligned legs; skew_mK = keypoint K missing
         pts = _np.array([[x, y], [x + sz, y + 2], [x + 3, y + sz]], dtype=float)
         if pose.startswith("skew_m"):
@@ -124,6 +129,7 @@ class Recorder:
         self.t = tracker
         self.feat_id = {}      # id(feature array) -> (frame, idx)
         self.inst_id = {}      # id(PredictedInstance) -> (frame, idx)
+        self.track_label = {}  # id(sio.Track object) -> label (order of first appearance)
         self.keep = []         # keep arrays alive so that ids stay unique
         self.frame = None
         self.nfeat = 0
@@ -322,6 +328,19 @@ def run_impl(case):
             for o in res[1]:
                 idx = next((i for i, x in enumerate(insts) if x is o), None)
                 out.append((idx, None if o.track is None else int(o.track.name)))
+            # the `sio.Track` OBJECTS the public API hands back (Track compares by identity downstream):
+            # label every distinct object by its order of first appearance in this history
+            objs = []
+            for o in res[1]:
+                idx = next((i for i, x in enumerate(insts) if x is o), None)
+                if o.track is None:
+                    objs.append((idx, None))
+                else:
+                    if id(o.track) not in rec.track_label:
+                        rec.track_label[id(o.track)] = len(rec.track_label)
+                        rec.keep.append(o.track)
+                    objs.append((idx, rec.track_label[id(o.track)]))
+            fr["out_obj"] = objs
             fr["res"] = "ok"
             fr["out"] = out
             fr["state"] = canon_state(tracker, rec)
@@ -606,6 +625,20 @@ def oracle(case, frames):
         tr = [t for _, t in out if t is not None]
         if len(set(tr)) != len(tr):
             bad.append((f, "two detections share a track"))
+    # well-formedness of what the public API hands back: one `sio.Track` object per track id over the whole
+    # history (Track compares by identity, so a second object with the same name is a different track
+    # downstream), and different ids never share an object
+    obj_of, id_of = {}, {}
+    for f, fr in enumerate(frames):
+        if fr["res"] != "ok" or bad:
+            break
+        for (i, t), (_, o) in zip(fr["out"], fr.get("out_obj", [])):
+            if t is None:
+                continue
+            if obj_of.setdefault(t, o) != o:
+                bad.append((f, f"track id {t} is handed back as a second sio.Track object"))
+            if id_of.setdefault(o, t) != t:
+                bad.append((f, f"one sio.Track object carries the ids {id_of[o]} and {t}"))
     return bad
 
 
@@ -657,7 +690,7 @@ EXTRA_PAIRS = [("keypoints", "euclidean_dist")]          # off-diagonal feature/
 
 def has_allnan(case, upto=None):
     fr = case["frames"] if upto is None else case["frames"][:upto + 1]
-    return any(len(d) > 5 and d[5] == "allnan" for dets in fr for d in dets)
+    return any(len(d) > 5 and d[5] in ("allnan", "allhid") for dets in fr for d in dets)
 
 
 ULP_THRESHOLDS = [0.7, 0.3, 0.1, 0.55]      # non-dyadic: float32(thr) != thr (seeded C09-r4m1)
@@ -695,8 +728,8 @@ def gen_case(rng, cfg=None, max_animals=5, max_frames=12, degenerate=None, nan_s
             poses[a] = rng.choice(DEGENERATE)
     elif nan_scores:
         # F-C09d region: some detections have no visible keypoint (every score NaN); oracle only
-        poses = [rng.choice(["tri", "tri", "skew", "allnan"]) for _ in range(K)]
-        poses[rng.randrange(K)] = "allnan"
+        poses = [rng.choice(["tri", "tri", "skew", "allnan", "allhid"]) for _ in range(K)]
+        poses[rng.randrange(K)] = rng.choice(["allnan", "allhid"])
     elif (cfg["scoring_method"] in ("oks", "euclidean_dist") and cfg["features"] != "bboxes"
           and not (cfg["features"] == "keypoints" and cfg["scoring_method"] == "euclidean_dist")
           and degenerate is None and rng.random() < 0.4):
@@ -746,7 +779,7 @@ def gen_case(rng, cfg=None, max_animals=5, max_frames=12, degenerate=None, nan_s
                     dets.append([pos[a][0], pos[a][1], sc, a])
                 else:
                     pose = poses[a]
-                    if nan_scores and pose != "allnan" and rng.random() < 0.15:
+                    if nan_scores and pose not in ("allnan", "allhid") and rng.random() < 0.15:
                         pose = "allnan"          # an animal that is sometimes detected without keypoints
                     dets.append([pos[a][0], pos[a][1], sc, a, 3 + (a % 3), pose])
         rng.shuffle(dets)
